@@ -330,12 +330,13 @@ func (s *Stream) WriteSCTP(payload []byte, ppi PayloadProtocolIdentifier) (int, 
 		return 0, nil
 	}
 
-	// the send could fail if the association is blocked for writing (timeout), it will left a hole
-	// in the stream sequence number space, so we need to lock the write to avoid concurrent send and decrement
-	// the sequence number in case of failure
-	if s.association.isBlockWrite() {
-		s.writeLock.Lock()
-	}
+	// Sequence numbers are taken in packetize and the chunks queued in
+	// sendPayloadData: concurrent writers on one stream must do both in the
+	// same order, or the peer sees a later sequence number first and (under
+	// receive-window pressure) can never get the earlier one. The send can
+	// also fail, and the roll-back of the sequence number must not interleave
+	// with another writer either.
+	s.writeLock.Lock()
 	useInterleaving := s.association.useInterleaving
 	chunks, unordered := s.packetize(payload, ppi)
 	n := len(payload)
@@ -355,9 +356,7 @@ func (s *Stream) WriteSCTP(payload []byte, ppi PayloadProtocolIdentifier) (int, 
 		s.lock.Unlock()
 		n = 0
 	}
-	if s.association.isBlockWrite() {
-		s.writeLock.Unlock()
-	}
+	s.writeLock.Unlock()
 
 	return n, err
 }
